@@ -685,6 +685,24 @@ func (s *sim) hotpPress(a *acct, e *Event) {
 	var code string
 	var err error
 	r := guarded(func() { code, err = otp.GenerateHOTP(fresh(a.tokSecret), c, a.tokParam()) })
+	if s.prop == "C03" && a.tokParam() == nil {
+		// "absent parameters mean 6 digits, SHA-1": a token built on nil parameters
+		// must get exactly what the spelled-out defaults give
+		if want, ok := refHOTP(a.tokSecret, c, 6, 0); ok {
+			verifh.Count("oracle.nil-param-generation==explicit-defaults", 1)
+			switch {
+			case r.panicked:
+				s.fail("absent-params==defaults", "GenerateHOTP", "panics-with-nil-param", fmt.Sprintf("GenerateHOTP(counter=%d, nil) panicked: %v; with &Param{Digits: 6, Algorithm: SHA1} it returns %q", c, r.pval, want))
+				return
+			case !r.tripped && err != nil:
+				s.fail("absent-params==defaults", "GenerateHOTP", "fails-with-nil-param", fmt.Sprintf("GenerateHOTP(counter=%d, nil) = error %v; with &Param{Digits: 6, Algorithm: SHA1} it returns %q", c, err, want))
+				return
+			case !r.tripped && code != want:
+				s.fail("absent-params==defaults", "GenerateHOTP", "differs-with-nil-param", fmt.Sprintf("GenerateHOTP(counter=%d, nil) = %q; with &Param{Digits: 6, Algorithm: SHA1} it returns %q", c, code, want))
+				return
+			}
+		}
+	}
 	a.tokCounter++ // wraps at 2^64 like a real token would
 	a.pressCount++
 	if a.pressCount%a.PersistEvery == 0 {
@@ -1017,6 +1035,23 @@ func (s *sim) totpPress(a *acct, e *Event) {
 	}
 	r := guarded(func() { code, err = otp.GenerateTOTP(fresh(a.tokSecret), goTime(tc, a.Zone, a.Mono), tp) })
 	s.noteTOTP(tc.Sec, periodEff(a.Period))
+	if s.prop == "C04" && tp == nil {
+		// "absent parameters mean 6 digits, SHA-1, 30 s": nil parameters on the token side
+		if want, ok := refHOTP(a.tokSecret, uint64(tc.Sec)/30, 6, 0); ok {
+			verifh.Count("oracle.nil-param-generation==explicit-defaults", 1)
+			switch {
+			case r.panicked:
+				s.fail("absent-params==defaults", "GenerateTOTP", "panics-with-nil-param", fmt.Sprintf("GenerateTOTP(t=%d, nil) panicked: %v; the code of step %d with 6 digits, SHA-1 is %q", tc.Sec, r.pval, tc.Sec/30, want))
+				return
+			case !r.tripped && err != nil:
+				s.fail("absent-params==defaults", "GenerateTOTP", "fails-with-nil-param", fmt.Sprintf("GenerateTOTP(t=%d, nil) = error %v; the code of step %d with 6 digits, SHA-1 is %q", tc.Sec, err, tc.Sec/30, want))
+				return
+			case !r.tripped && code != want:
+				s.fail("absent-params==defaults", "GenerateTOTP", "differs-with-nil-param", fmt.Sprintf("GenerateTOTP(t=%d, nil) = %q; the code of step %d with 6 digits, SHA-1 is %q", tc.Sec, code, tc.Sec/30, want))
+				return
+			}
+		}
+	}
 	step := uint64(tc.Sec) / periodEff(a.Period)
 	if r.panicked || r.tripped || err != nil {
 		verifh.Count("token.generate-failed", 1)
